@@ -38,11 +38,11 @@ theorem readS_length (d : Bytes) (off len : Nat) : (readS d off len).length = mi
   unfold readS; simp
 
 theorem writeC_eq (d : Bytes) (h : Handle) (b : Bytes) (cur : Nat) (hp : h.pos = cur)
-    (hc : h.closed = false) (hr : h.readOnly = false) :
+    (hc : h.closed = false) (hr : h.readOnly = false) (hb : b ≠ []) :
     writeC d h b = (writeS d cur b, { h with pos := h.pos + b.length }, .n b.length none) := by
   rw [← writeCore_eq_writeS]
   unfold writeC writeCore
-  simp only [hc, hr, hp, Bool.false_eq_true, if_false]
+  simp only [hc, hr, hp, hb, Bool.false_eq_true, if_false]
   by_cases h1 : b.length + cur < d.length
   · have h1' : (b.length : Int) + cur < d.length := by omega
     have h2 : ¬ ((cur : Int) - d.length > 0) := by omega
